@@ -14,7 +14,10 @@ import (
 	"time"
 
 	"github.com/gobwas/ws"
+	"github.com/jensneuse/abstractlogger"
 
+	"github.com/wundergraph/graphql-go-tools/execution/engine"
+	"github.com/wundergraph/graphql-go-tools/execution/graphql"
 	"github.com/wundergraph/graphql-go-tools/execution/subscription"
 	"github.com/wundergraph/graphql-go-tools/execution/subscription/websocket"
 	"github.com/wundergraph/graphql-go-tools/v2/pkg/ast"
@@ -33,6 +36,7 @@ type runOpts struct {
 	noProbe     bool          // do not append the final liveness probe
 	preDelay    time.Duration // wait this long after the connection is up before the first message (init racing the timer)
 	wire        bool          // serve the connection with the repository's websocket.Client over an in-memory net.Conn (wire.go)
+	gateAt      int           // >0: slow write — message gateAt of the word is sent at the moment the client has received the server's first terminal message for that message's id while the server's write call has not returned yet (0 = off; message 0 can never be gated)
 }
 
 const (
@@ -119,6 +123,12 @@ type rig struct {
 	lateCloses     int
 	startT         time.Time
 	ackT           time.Time
+
+	// slow write gate (scripted client only)
+	gateID      string        // armed for the first terminal message of this id ("" = not armed)
+	gateHit     bool          // the terminal message was handed to the client; its write call is parked
+	gateRelease chan struct{} // closed by the driver to let the write call return
+	hookErr     string        // the engine with the before-start hook could not be built
 
 	// wire mode
 	wbuf       []byte // bytes written by the server and not yet parsed into frames
@@ -218,6 +228,7 @@ func (c tclient) ReadBytesFromClient() ([]byte, error) {
 func (c tclient) WriteBytesToClient(b []byte) error {
 	r := c.r
 	var err error
+	var park chan struct{}
 	cp := string(b)
 	r.update(func() {
 		if r.closed {
@@ -229,8 +240,30 @@ func (c tclient) WriteBytesToClient(b []byte) error {
 		if r.ackT.IsZero() && strings.Contains(cp, `"connection_ack"`) {
 			r.ackT = time.Now()
 		}
+		if r.gateID != "" && isTerminalFor(cp, r.gateID) {
+			// slow write: the client has the message, the server's write call has not returned
+			r.gateID = ""
+			r.gateHit = true
+			park = r.gateRelease
+		}
 	})
+	if park != nil {
+		t := time.NewTimer(watchdog)
+		select {
+		case <-park:
+		case <-t.C:
+		}
+		t.Stop()
+	}
 	return err
+}
+
+// isTerminalFor: is the server message raw a complete/error for operation id?
+func isTerminalFor(raw, id string) bool {
+	if !strings.Contains(raw, `"id":"`+id+`"`) {
+		return false
+	}
+	return strings.Contains(raw, `"type":"complete"`) || strings.Contains(raw, `"type":"error"`)
 }
 
 func (c tclient) IsConnected() bool {
@@ -298,7 +331,7 @@ func closeInfo(reason any) (int, string) {
 
 type pool struct{ r *rig }
 
-var tokenRe = regexp.MustCompile(`\b([qsxg])_(\d+)\b`)
+var tokenRe = regexp.MustCompile(`\b([qsxgh])_(\d+)\b`)
 
 func (p pool) Get(payload []byte) (subscription.Executor, error) {
 	r := p.r
@@ -323,7 +356,59 @@ func (p pool) Get(payload []byte) (subscription.Executor, error) {
 	if op.kind == kSubGetFail {
 		return nil, fmt.Errorf("scripted pool: cannot build an executor for g_%d", tok)
 	}
+	if op.kind == kSubHookReject {
+		// a real ExecutorV2 over a real engine whose WebsocketBeforeStartHook rejects h_* operations:
+		// ExecutorEngine.handleOnBeforeStart only consults the hook of that executor type
+		hp, err := hookPool()
+		if err != nil {
+			r.update(func() { r.hookErr = err.Error() })
+			return nil, err
+		}
+		return hp.Get(payload)
+	}
 	return &executor{r: r, op: op}, nil
+}
+
+// rejectingHook is the engine's WebsocketBeforeStartHook: it refuses every operation whose text
+// carries an h_<step> token and names that token in the error.
+type rejectingHook struct{}
+
+var hookTokRe = regexp.MustCompile(`\bh_(\d+)\b`)
+
+func (rejectingHook) OnBeforeStart(_ context.Context, operation *graphql.Request) error {
+	if operation == nil {
+		return nil
+	}
+	if m := hookTokRe.FindString(operation.Query); m != "" {
+		return fmt.Errorf("%s: operation refused by the before-start hook", m)
+	}
+	return nil
+}
+
+var (
+	hookPoolOnce sync.Once
+	hookPoolVal  *subscription.ExecutorV2Pool
+	hookPoolErr  error
+)
+
+// hookPool builds (once per process) a minimal execution engine with the rejecting hook.
+func hookPool() (*subscription.ExecutorV2Pool, error) {
+	hookPoolOnce.Do(func() {
+		schema, err := graphql.NewSchemaFromString("type Query { a: Int }")
+		if err != nil {
+			hookPoolErr = err
+			return
+		}
+		conf := engine.NewConfiguration(schema)
+		conf.SetWebsocketBeforeStartHook(rejectingHook{})
+		eng, err := engine.NewExecutionEngine(context.Background(), abstractlogger.Noop{}, conf, resolve.ResolverOptions{MaxConcurrency: 16})
+		if err != nil {
+			hookPoolErr = err
+			return
+		}
+		hookPoolVal = subscription.NewExecutorV2Pool(eng, context.Background())
+	})
+	return hookPoolVal, hookPoolErr
 }
 
 func (p pool) Put(e subscription.Executor) error {
@@ -458,7 +543,7 @@ type runResult struct {
 	ackLate    bool            // the first connection_ack was written later than half the init time-out after the start (a 4408 after it is then not judged: the timer may legitimately have fired first)
 
 	fed, undelivered, rejectedWrites, lateCloses, unknownGets int
-	eventsSent, eventsSkipped                                 int
+	eventsSent, eventsSkipped, gateHits                       int
 	setupErr                                                  string
 }
 
@@ -545,7 +630,7 @@ func runScript(p proto, word []sym, sc schedule, o runOpts) *runResult {
 			op := r.ops[t]
 			var skip, needEnter bool
 			r.mu.Lock()
-			skip = op.gets == 0 || op.put || op.rejected
+			skip = op.gets == 0 || op.put || op.rejected || op.kind == kSubHookReject
 			needEnter = !skip && !op.entered
 			if needEnter && (r.closed || r.dupRejectedLocked(op)) {
 				op.rejected = true
@@ -616,13 +701,25 @@ func runScript(p proto, word []sym, sc schedule, o runOpts) *runResult {
 		}
 	}
 
+	// slow-write runs: until the gated message has been sent nothing is awaited (the operation whose
+	// terminal message is parked cannot finish), afterwards the run is deterministic again
+	gating := o.gateAt > 0 && o.gateAt < len(word) && !o.wire
+	gatePassed := false
+	if gating {
+		r.update(func() {
+			r.gateID = word[o.gateAt].id
+			r.gateRelease = make(chan struct{})
+		})
+	}
+	loose := func() bool { return o.racy || (gating && !gatePassed) }
+
 	release := func(e schedEv) {
 		op := r.ops[e.op]
 		if op == nil {
 			res.eventsSkipped++
 			return
 		}
-		if o.racy {
+		if loose() {
 			select {
 			case op.evCh <- e.kind:
 				r.update(func() { op.sent++ })
@@ -660,24 +757,48 @@ func runScript(p proto, word []sym, sc schedule, o runOpts) *runResult {
 	for t := 0; t <= len(word); t++ {
 		for j < len(sc) && sc[j].slot <= t {
 			release(sc[j])
-			if !o.racy {
+			if !loose() {
 				settleOps()
 			}
 			j++
 		}
 		if t < len(word) {
-			if !feed(t, word[t]) {
+			gated := false
+			if gating && t == o.gateAt {
+				// wait until the server's terminal message for this id has been handed to the client
+				gated = r.waitFor(func() bool { return r.gateHit }, 2*time.Second)
+				if gated {
+					res.gateHits++
+				}
+			}
+			ok := feed(t, word[t])
+			if gating && t == o.gateAt {
+				if gated && ok {
+					// give the handler the time to act on the message while the write call is still
+					// parked (a correct server waits for that call to return, so this wait may expire)
+					r.waitFor(func() bool { return handlerIdle() || r.closed }, 8*time.Millisecond)
+				}
+				r.update(func() { r.gateID = "" })
+				close(r.gateRelease)
+				gatePassed = true
+			}
+			if !ok {
 				// connection gone: nothing else can be delivered; remaining engine events are moot
 				res.undelivered += len(word) - t - 1
 				break
 			}
-			if !o.racy {
+			if !loose() {
 				settle()
 			}
 		}
 		if res.wedge != "" {
 			break
 		}
+	}
+	if gating && !gatePassed {
+		r.update(func() { r.gateID = "" })
+		close(r.gateRelease)
+		gatePassed = true
 	}
 
 	if res.wedge == "" && !o.abruptEOF {
@@ -742,6 +863,9 @@ func runScript(p proto, word []sym, sc schedule, o runOpts) *runResult {
 	r.mu.Lock()
 	res.trace = append([]traceEv(nil), r.log...)
 	res.ops = r.snapshotOpsLocked()
+	if r.hookErr != "" {
+		res.setupErr = "before-start hook engine: " + r.hookErr
+	}
 	res.rejectedWrites = r.rejectedWrites
 	res.lateCloses = r.lateCloses
 	res.unknownGets = r.unknownGets
